@@ -36,12 +36,14 @@ ShapeViol(s) ==
   CASE s.t \in {"F", "Dual", "Dual2"} -> NumViol(s)
     [] s.t = "PPSpline" -> (IF s.k >= 1 /\ s.nt >= 2 /\ s.n = s.nt - s.k /\ s.n >= 1 THEN {} ELSE {"n-vs-knots"})
                            \cup (IF s.sorted THEN {} ELSE {"knots-unsorted"})
-                           \cup (IF s.has_c /\ s.nc # s.n THEN {"coefficient-count"} ELSE {})
+                           \* (the length of a supplied coefficient array is NOT an invariant of the type: PPSpline::new does
+                           \*  not check it, only csolve establishes it - so it is not demanded of a loaded object either)
                            \cup UNION {NumViol(s.c[i]) : i \in 1..Len(s.c)}
     [] s.t = "FXRates" -> (IF s.nccy = s.nq + 1 THEN {} ELSE {"currency-count"})
                           \cup (IF \A i \in 1..Len(s.ccylens) : s.ccylens[i] = 3 THEN {} ELSE {"currency-code"})
                           \cup UNION {NumViol(s.quotes[i]) : i \in 1..Len(s.quotes)}
-    [] s.t = "Curve" -> (IF s.nnodes >= 2 THEN {} ELSE {"fewer-than-two-nodes"}) \cup UNION {NumViol(s.nodes[i]) : i \in 1..Len(s.nodes)}
+    \* (a curve's node count is not constrained by its constructors, so it is not demanded here)
+    [] s.t = "Curve" -> UNION {NumViol(s.nodes[i]) : i \in 1..Len(s.nodes)}
     [] s.t = "NamedCal" -> IF s.ncals >= 1 THEN {} ELSE {"no-member"}
     [] s.t \in {"Cal", "UnionCal"} -> {}
     [] OTHER -> {"unknown-type"}
